@@ -115,7 +115,8 @@ def numBoundaryOK (s : Bytes) : Bool :=
   let body := match s with | 45 :: r => r | r => r
   let ip := body.takeWhile isDig
   let rest := body.dropWhile isDig
-  !ip.isEmpty && (match rest with
+  -- integer-value: "0" or no leading zero
+  !ip.isEmpty && !(ip.length > 1 && ip.head? = some 48) && (match rest with
     | [] => true
     | 46 :: fr => !fr.isEmpty && fr.all isDig
     | _ => false)
